@@ -23,7 +23,7 @@ FILES = {
     "rspirv/binary/assemble.rs": ["C02", "C15", "C01"],
     "rspirv/binary/disassemble.rs": ["C07", "C20"],
     "rspirv/dr/loader.rs": ["C05", "C01", "C04"],
-    "rspirv/dr/constructs.rs": ["C15", "C07", "C01"],
+    "rspirv/dr/constructs.rs": ["C15", "C07", "C01", "C13"],
     "rspirv/dr/build/mod.rs": ["C12", "C13", "C06", "C16"],
     "rspirv/grammar/reflect.rs": ["C16", "C05"],
     "rspirv/grammar/syntax.rs": ["C09", "C07"],
@@ -73,7 +73,7 @@ def code_lines(path):
     return lines, out
 
 
-def gen(seed, per_file):
+def gen(seed, per_file, only=None, prefix="M"):
     rng = random.Random(seed)
     muts = []
     for f, checks in FILES.items():
@@ -97,6 +97,24 @@ def gen(seed, per_file):
                 cands.append(("num+1", i, l, new))
                 break
             t = l.strip()
+            # match arms on one line: delete the arm (a wildcard arm must exist, else it does not compile) / exchange the
+            # right-hand sides of two neighbouring arms
+            arm = re.match(r"^(\s*)([^=]+?) => ([^{]+),$", code.rstrip())
+            if arm and not t.startswith("_ =>"):
+                cands.append(("arm-delete", i, l, ""))
+                if i + 1 < len(lines):
+                    arm2 = re.match(r"^(\s*)([^=]+?) => ([^{]+),$", lines[i + 1].split("//")[0].rstrip())
+                    if arm2 and arm2.group(3) != arm.group(3) and not lines[i + 1].strip().startswith("_ =>"):
+                        cands.append(("arm-rhs-swap", i, l, "%s%s => %s," % (arm.group(1), arm.group(2), arm2.group(3)), "%s%s => %s," % (arm2.group(1), arm2.group(2), arm.group(3))))
+            # two simple arguments exchanged
+            am = re.search(r"(\w+)\((\w+), (\w+)\)", code)
+            if am and am.group(2) != am.group(3) and not am.group(1)[0].isupper() is False:
+                pass
+            if am and am.group(2) != am.group(3):
+                cands.append(("arg-swap", i, l, code[:am.start()] + "%s(%s, %s)" % (am.group(1), am.group(3), am.group(2)) + code[am.end():]))
+            sm = re.search(r'"([A-Za-z][A-Za-z0-9_.]{2,})"', code)
+            if sm and "expect(" not in code and "panic!" not in code and "doc" not in code:
+                cands.append(("str-tweak", i, l, code[:sm.end() - 1] + "X" + code[sm.end() - 1:]))
             # statement deletion: assignments to self / pushes / bare calls ending in ';'
             if re.match(r"^(self\.[\w.\[\]]+ (=|\+=|-=) .*;|[\w.]+\.push\(.*\);|self\.\w+\(.*\)\?;|[\w.]+\.(clear|pop|truncate|extend)\(.*\);)$", t):
                 cands.append(("del-stmt", i, l, ""))
@@ -109,16 +127,19 @@ def gen(seed, per_file):
         rng.shuffle(cands)
         k = per_file if "autogen" not in f else max(6, per_file // 3)
         # at most 40% line swaps per file
+        if only:
+            cands = [c for c in cands if c[0] in only]
         swaps = [c for c in cands if c[0] == "swap-next"][:max(2, (2 * k) // 5)]
         others = [c for c in cands if c[0] != "swap-next"]
         cands = others[:k - min(len(swaps), k // 2)] + swaps
         rng.shuffle(cands)
-        for name, i, l, new in cands[:k]:
-            muts.append({"file": f, "line": i + 1, "op": name, "old": l, "new": new, "next": lines[i + 1] if new is None else None, "checks": checks})
+        for cnd in cands[:k]:
+            name, i, l, new = cnd[:4]
+            muts.append({"file": f, "line": i + 1, "op": name, "old": l, "new": new, "new_next": cnd[4] if len(cnd) > 4 else None, "checks": checks})
     rng.shuffle(muts)
     for n, m in enumerate(muts):
-        m["id"] = "M%04d" % n
-    with open(os.path.join(BUILD, "mutants.jsonl"), "w") as fo:
+        m["id"] = "%s%04d" % (prefix, n)
+    with open(os.path.join(BUILD, "mutants.jsonl"), "a" if prefix != "M" else "w") as fo:
         for m in muts:
             fo.write(json.dumps(m) + "\n")
     print(len(muts), "mutants")
@@ -133,6 +154,8 @@ def apply(wt, m):
         lines[i], lines[i + 1] = lines[i + 1], lines[i]
     else:
         lines[i] = m["new"]
+        if m.get("new_next") is not None:
+            lines[i + 1] = m["new_next"]
     open(p, "w").write("\n".join(lines))
 
 
@@ -212,6 +235,32 @@ def run(workers, limit):
     for t in ts: t.join()
 
 
+def recheck(pairs):
+    """recheck M0020:C06 M0047:C07 ...: run the named check against already tried mutants again (after strengthening)."""
+    muts = {json.loads(l)["id"]: json.loads(l) for l in open(os.path.join(BUILD, "mutants.jsonl"))}
+    wt = "/tmp/mut_w9"
+    runseeds.sh("git worktree remove --force %s" % wt, cwd="/repo"); runseeds.sh("rm -rf %s" % wt)
+    runseeds.sh("git worktree add -q --detach %s HEAD" % wt, cwd="/repo")
+    out = []
+    try:
+        for pr in pairs:
+            mid, chk = pr.split(":")
+            runseeds.sh("git checkout -q -- .", cwd=wt)
+            apply(wt, muts[mid])
+            mdir = runseeds.mirror(wt)
+            rc, o = runseeds.sh("./check %s --tier quick" % chk, cwd=mdir, env={"VERIF_REPO": wt}, timeout=2400)
+            line = ([l for l in o.split("\n") if l.startswith("VIOLATION") or "TOOL ERROR" in l] or [""])[0]
+            print(mid, chk, "rc=%d" % rc, line[:160], flush=True)
+            out.append({"id": mid, "check": chk, "rc": rc, "file": muts[mid]["file"], "line": muts[mid]["line"], "op": muts[mid]["op"]})
+    finally:
+        runseeds.sh("git worktree remove --force %s" % wt, cwd="/repo")
+        runseeds.sh("rm -rf %s /tmp/vseed_mut_w9" % wt)
+        runseeds.sh("git worktree prune", cwd="/repo")
+    with open(os.path.join(BUILD, "mutsweep_rechecks.jsonl"), "a") as fo:
+        for r in out:
+            fo.write(json.dumps(r) + "\n")
+
+
 def report():
     resf = os.path.join(BUILD, "mutsweep_results.jsonl")
     rs = [json.loads(l) for l in open(resf)]
@@ -229,8 +278,11 @@ if __name__ == "__main__":
     def opt(name, d):
         return int(a[a.index(name) + 1]) if name in a else d
     if a[0] == "gen":
-        gen(opt("--seed", 1), opt("--per-file", 30))
+        only = a[a.index("--only") + 1].split(",") if "--only" in a else None
+        gen(opt("--seed", 1), opt("--per-file", 30), only, a[a.index("--prefix") + 1] if "--prefix" in a else "M")
     elif a[0] == "run":
         run(opt("--workers", 4), opt("--limit", 0))
+    elif a[0] == "recheck":
+        recheck(a[1:])
     else:
         report()
